@@ -443,7 +443,10 @@ def finish(pid, tier, seed, spec, reports, t_start, fatal=None, build_s=0.0):
         log('[%s] %-28s %-5s eng=%s paths=%s queries=%s solver=%ss wall=%ss validated=%s viol=%d known=%d %s' % (pid, rep['job'], rep['status'], rep['engine'], rep.get('paths', '-'),
             rep.get('sat', 0) + rep.get('unsat', 0) if rep['engine'] == 'B' else rep.get('nprops'), rep.get('solver_s', '-'), rep.get('wall_s', '-'), rep.get('validated', '-'),
             len(rep['violations']), len(rep['known']), rep.get('error') or ''))
+    seen_known = set()
     for rep, v in known:
+        if (rep['job'], v.get('known')) in seen_known: continue
+        seen_known.add((rep['job'], v.get('known')))
         print('KNOWN-FINDING: property=%s %s [%s: %s]' % (pid, v.get('known'), rep['job'], v['msg']))
     for rep, v in viol:
         print('VIOLATION property=%s replay=%s' % (pid, v['replay']))
